@@ -414,6 +414,81 @@ pub mod spec_name_core {
         }
     }
 
+    /// The hash input read from the left: first label first.
+    pub proof fn lemma_labels_hash_input_left(ls: Seq<Seq<u8>>)
+        requires ls.len() > 0,
+        ensures labels_hash_input(ls) == label_hash_input(ls[0]) + labels_hash_input(ls.skip(1)),
+        decreases ls.len()
+    {
+        if ls.len() == 1 {
+            assert(ls.drop_last() =~= Seq::<Seq<u8>>::empty());
+            assert(ls.skip(1) =~= Seq::<Seq<u8>>::empty());
+            assert(labels_hash_input(ls.drop_last()) =~= Seq::<u8>::empty());
+            assert(labels_hash_input(ls) =~= label_hash_input(ls[0]) + Seq::<u8>::empty());
+        } else {
+            let d = ls.drop_last();
+            lemma_labels_hash_input_left(d);
+            assert(d.skip(1) =~= ls.skip(1).drop_last());
+            assert(ls.skip(1).last() == ls.last());
+            assert(d[0] == ls[0]);
+            assert(labels_hash_input(ls) =~= label_hash_input(ls[0]) + (labels_hash_input(ls.skip(1).drop_last()) + label_hash_input(ls.last())));
+        }
+    }
+
+    /// [C16 hash ignores nothing but case] names (labels of at most 255 octets) that feed the
+    /// hasher identical octets are equal up to ASCII case: the length octets make the input a prefix code.
+    pub proof fn lemma_labels_hash_inj(a: Seq<Seq<u8>>, b: Seq<Seq<u8>>)
+        requires
+            forall|i: int| 0 <= i < a.len() ==> (#[trigger] a[i]).len() <= 255,
+            forall|i: int| 0 <= i < b.len() ==> (#[trigger] b[i]).len() <= 255,
+            labels_hash_input(a) == labels_hash_input(b),
+        ensures labels_ci_eq(a, b),
+        decreases a.len()
+    {
+        if a.len() == 0 {
+            if b.len() > 0 {
+                lemma_labels_hash_input_left(b);
+                assert(label_hash_input(b[0]).len() >= 1);
+            }
+        } else {
+            lemma_labels_hash_input_left(a);
+            if b.len() == 0 {
+                assert(label_hash_input(a[0]).len() >= 1);
+            } else {
+                lemma_labels_hash_input_left(b);
+                let ha = label_hash_input(a[0]);
+                let hb = label_hash_input(b[0]);
+                let ra = labels_hash_input(a.skip(1));
+                let rb = labels_hash_input(b.skip(1));
+                assert(a[0].len() <= 255 && b[0].len() <= 255);
+                assert((ha + ra)[0] == ha[0] && (hb + rb)[0] == hb[0]);
+                assert(ha[0] == a[0].len() as u8 && hb[0] == b[0].len() as u8);
+                assert(a[0].len() == b[0].len());
+                assert(ha.len() == hb.len());
+                assert forall|j: int| 0 <= j < ha.len() implies ha[j] == hb[j] by {
+                    assert((ha + ra)[j] == ha[j]);
+                    assert((hb + rb)[j] == hb[j]);
+                }
+                assert(ha =~= hb);
+                assert(ra =~= (ha + ra).skip(ha.len() as int));
+                assert(rb =~= (hb + rb).skip(hb.len() as int));
+                lemma_label_hash_inj(a[0], b[0]);
+                let a1 = a.skip(1);
+                let b1 = b.skip(1);
+                assert forall|i: int| 0 <= i < a1.len() implies (#[trigger] a1[i]).len() <= 255 by { assert(a1[i] == a[i + 1]); }
+                assert forall|i: int| 0 <= i < b1.len() implies (#[trigger] b1[i]).len() <= 255 by { assert(b1[i] == b[i + 1]); }
+                lemma_labels_hash_inj(a1, b1);
+                assert forall|i: int| 0 <= i < a.len() implies ci_eq(#[trigger] a[i], b[i]) by {
+                    if i > 0 {
+                        assert(a1[i - 1] == a[i]);
+                        assert(b1[i - 1] == b[i]);
+                        assert(ci_eq(a1[i - 1], b1[i - 1]));
+                    }
+                }
+            }
+        }
+    }
+
     // ------------------------------------------------------------ structure of a valid name
 
     /// `labels_ok` / `label_starts` from the k-th start on.
